@@ -971,6 +971,14 @@ func (r *myRun) checkStatement(si int, sel MySel, cols []int, shown []string, sq
 	}
 
 	// ---- the rows
+	if mixedIntBinary {
+		// the open finding: one column definition serves all rows, and a column with a declared integer type whose
+		// delivered values are partly revealed (4 / 8 raw bytes) and partly returned as stored (length-encoded)
+		// cannot be framed under any type. A row that happens to be decodable all the same is misread (a revealed
+		// 3 arrives as the three bytes behind a length byte 3), so nothing about the rows of this result set is judged
+		r.res.vs.Add("malformed-row:binary:integer-column-with-revealed-and-ciphertext-rows", "statement %d (%s): an integer column holds revealed and unrevealable rows in a binary result set; described column types % x", si, sql, types)
+		return firstFail >= 0
+	}
 	for i := 0; i < deliver; i++ {
 		ri := rows[i]
 		var row []mysess.Value
